@@ -168,7 +168,28 @@ func (fr *frame) execInstr(ins ssa.Instruction, st *State, reach *string) bool {
 		fr.goStmt(x, st, reach)
 	case *ssa.Send:
 		// channel sends carry no tracked state
-	case *ssa.Range, *ssa.Next, *ssa.Select, *ssa.SliceToArrayPointer, *ssa.MultiConvert:
+	case *ssa.Select:
+		// select: which ready case is taken is not determined by the tracked state; received values are unconstrained.
+		// (Channel contents are not modelled: a select is a nondeterministic choice among its cases.)
+		ex.used["abstracted: select statement = nondeterministic choice among its cases, received values unconstrained"] = true
+		tup := x.Type().(*types.Tuple)
+		var ls []string
+		idx := ex.freshConst("selidx", sInt)
+		lo := "0"
+		if !x.Blocking {
+			lo = "(- 1)"
+		}
+		ex.assume(and(app("<=", lo, idx), app("<", idx, num(int64(len(x.States))))))
+		ls = append(ls, idx, ex.freshConst("selok", sBool))
+		for i := 2; i < tup.Len(); i++ {
+			v := ex.freshVal(tup.At(i).Type(), st, "selrecv")
+			ls = append(ls, v.L...)
+		}
+		if x.Blocking {
+			ex.advanceClock(st, *reach)
+		}
+		fr.set(x, Val{T: tup, L: ls})
+	case *ssa.Range, *ssa.Next, *ssa.SliceToArrayPointer, *ssa.MultiConvert:
 		panic(unsupported(fmt.Sprintf("instruction %T in %s", ins, fr.fn)))
 	case *ssa.If:
 		c := fr.val(x.Cond).L[0]
